@@ -51,6 +51,8 @@ pub fn spec(property: &str, tier: &str) -> Option<CheckSpec> {
 		sp.stub_components.extend(net_stub());
 		sp.required_probes.push("netsim_runs".to_string());
 		sp.required_probes.push("net_final_head_is_winner".to_string());
+		sp.required_probes.push("net_headers_synced_through_adapter".to_string());
+		sp.rule.push_str("; one netsim run in four starts with the node far behind: HeaderSync status and Headers messages in chunks (NetToChainAdapter::headers_received -> sync_block_headers), then BodySync status with the first three fifths of the winning chain requested by hash through the real Peer::send_block_request(SYNC) and answered out of order and not always (the TrackingAdapter hands the SYNC option back when the block arrives), before the ordinary traffic continues");
 		if property == "C06" {
 			sp.required_probes.push("net_byzantine_peer_banned".to_string());
 		}
